@@ -74,11 +74,11 @@ def describe(r, i):
     for j in range(i + 1, 3):
         if r['K'][j] == 'none':
             break
-        if 'N' in r['O'][j]:
+        if 'N' in r['O'][j] or 'Ni' in r['O'][j]:
             return 'nonlocal-declared-in-nested-%s' % r['K'][j]
         if 'P' in r['O'][j]:
             return 'parameter-of-nested-%s' % r['K'][j]
-        if 'G' in r['O'][j]:
+        if 'G' in r['O'][j] or 'Gi' in r['O'][j]:
             return 'global-declared-in-nested-%s' % r['K'][j]
     return 'own-occurrences:' + '+'.join(sorted(r['O'][i])) if r['O'][i] else 'nested-use'
 
